@@ -28,7 +28,7 @@ func VerifH_C14_arpJSON() {
 	verifAssert(len(kvs) == 3, "object does not have exactly the documented keys")
 	for i, kv := range kvs {
 		if i < 3 {
-			verifAssert(kv.key == want[i] && kv.isStr && c14SameBytes(kv.str, []byte(vals[i])), "a value does not decode back to the result's field")
+			verifAssert(kv.key == want[i] && kv.isStr && c14SameBytes(kv.str, c14Expect([]byte(vals[i]))), "a value does not decode back to the result's field")
 		}
 	}
 	verifCover("done")
